@@ -449,7 +449,7 @@ def gen_config(rng, joint=None, small=True):
 def flat_config(rng, joint=False):
     """a configuration whose data contain a flat-lined stretch long enough to become a cluster of identical windows"""
     cfg = gen_config(rng, joint=joint)
-    cfg.update({"K": 2 if rng.random() < 0.5 else 3, "W": rng.choice([1, 2, 2, 3]), "N": 2, "m": rng.choice([3, 5, 10]),
+    cfg.update({"K": 3 if rng.random() < 0.8 else 2, "W": rng.choice([1, 2, 2, 3]), "N": 2, "m": rng.choice([3, 5, 10]),
                 "limit": max(3, cfg["limit"]), "beta": 5.0, "eps": 0, "lam": 0.11,
                 "flat": [rng.choice([0.3, 0.5]), 30, rng.choice([6.0, -6.0])]})
     if not joint:
